@@ -143,7 +143,7 @@ impl Prop for C10 {
         }
     }
     fn worker(&self, ctx: &mut WorkerCtx) {
-        let total = if ctx.quick { 16_000 } else { 300_000 };
+        let total = if ctx.quick { 50_000 } else { 1_000_000 };
         let n = ctx.share(total);
         ctx.drive(1, n, 600, &gen_case, &check, &reduce);
     }
